@@ -173,8 +173,64 @@ func (e *Exec) unmarshalInto(bz Value, dst Value, lenPfx bool) Value {
 			}
 		}
 	}
-	e.store(p, e.deepCopy(b.Blob.Val, map[*Obj]*Obj{}))
+	src := e.deepCopy(b.Blob.Val, map[*Obj]*Obj{})
+	e.store(p, e.protoMerge(cur, src))
 	return nilErr()
+}
+
+// protoMerge models what generated gogoproto Unmarshal does to a destination
+// that is not freshly zeroed: fields absent from the wire (proto3 default
+// values) keep the destination's old value, and bytes fields reuse the
+// destination's backing array (m.F = append(m.F[:0], data...)), so a variable
+// reused across Unmarshal calls aliases earlier results.
+func (e *Exec) protoMerge(cur, src Value) Value {
+	cs, ok1 := cur.(*Struct)
+	ss, ok2 := src.(*Struct)
+	if !ok1 || !ok2 || len(cs.Fields) != len(ss.Fields) {
+		return src
+	}
+	out := make([]Value, len(ss.Fields))
+	for i := range ss.Fields {
+		c, sv := cs.Fields[i], ss.Fields[i]
+		curZero := e.isZeroTerm(c)
+		if curZero.IsTrue() {
+			out[i] = sv // fresh destination: plain overwrite
+			continue
+		}
+		switch x := sv.(type) {
+		case Bytes:
+			cb := c.(Bytes)
+			if e.branch(smt.Eq(x.Len, c0)) {
+				out[i] = c // absent on the wire: old value stays
+				continue
+			}
+			if cb.Buf != nil && x.Blob == nil && e.branch(smt.ULe(x.Len, cb.Cap)) {
+				// append(m.F[:0], data...) writes into the old backing array
+				xv := bytesView(x)
+				cb.Buf.Fn = FnCopy{Old: cb.Buf.Fn, DOff: cb.Off, Src: xv.Fn, SOff: xv.Off, N: xv.Len}
+				out[i] = Bytes{Buf: cb.Buf, Off: cb.Off, Len: x.Len, Cap: cb.Cap}
+				e.Notes["CODEC: Unmarshal into a non-fresh destination reuses the backing array of bytes fields and keeps fields that are absent on the wire (gogoproto semantics)"] = true
+				continue
+			}
+			out[i] = sv
+		case Str:
+			if e.branch(smt.Eq(x.Len, c0)) {
+				out[i] = c
+			} else {
+				out[i] = sv
+			}
+		case *smt.Term:
+			z := e.isZeroTerm(x)
+			if e.branch(z) {
+				out[i] = c
+			} else {
+				out[i] = sv
+			}
+		default:
+			out[i] = sv
+		}
+	}
+	return &Struct{Fields: out}
 }
 
 func (e *Exec) codecMethod(o Opaque, method string, args []Value) Value {
